@@ -30,7 +30,7 @@ ASSUMPTIONS = [
 ]
 DEDUPE = False
 FIELDS = ["zeros", "one", "two", "moved", "ones", "noise"]
-TIMES = {"unit": [0, 1, 2, 3], "floats": [0.25, 0.75, 2.0, 2.125]}
+TIMES = {"unit": [0, 1, 2, 3], "floats": [0.25, 0.75, 2.0, 2.125], "repeated": [0, 1, 1, 1.5]}  # equal consecutive time stamps are valid input
 
 
 def grids():
@@ -116,7 +116,8 @@ def cases(block):
                         yield {"part": p, "grid": block["grid"], "settings": st, "seq": list(seq), "times": tv, "source": source, "prefilled": prefilled}
     elif p == "length":
         for seq in sequences(3, FIELDS):
-            yield {"part": p, "grid": block["grid"], "method": block["method"], "seq": list(seq), "times": "floats" if len(seq) % 2 else "unit", "source": "index" if len(seq) == 2 else "none"}
+            for tv in ((("floats" if len(seq) % 2 else "unit"), "repeated") if len(seq) >= 3 else (("floats" if len(seq) % 2 else "unit"),)):
+                yield {"part": p, "grid": block["grid"], "method": block["method"], "seq": list(seq), "times": tv, "source": "index" if len(seq) == 2 else "none"}
     elif p == "long":
         for gk in ("2d", "1d"):
             yield {"part": "long", "grid": gk, "n": 12}
